@@ -21,6 +21,8 @@ Expressions are hashable tuples:
 """
 from __future__ import annotations
 
+import re as _re
+
 import jinja2
 from jinja2 import nodes
 
@@ -270,6 +272,56 @@ def elementwise(seq, elt):
             return base, ("filter", seq[3][0][1], inner, tuple(seq[3][1:]), ())
         return seq, elt
     return seq, elt
+
+
+def scan(tree, items, env, guards=()):
+    """The items of one template scope in order, with the `{% set %}` bindings in force at each item (names substituted, value
+    macros inlined) and the enclosing `{% if %}` tests; descends into if-arms (same scope), not into loops."""
+    for it in items:
+        if it[0] == "set" and it[1][0] == "name":
+            env[it[1][1]] = subst(inline_macros(tree, it[-1], it[2]), env)
+        elif it[0] == "if":
+            yield from scan(tree, it[2], env, guards + (("if+", it[1], dict(env)),))
+            yield from scan(tree, it[3], env, guards + (("if-", it[1], dict(env)),))
+        else:
+            yield it, env, guards
+
+
+def expr_at(tree, it, e, env):
+    return subst(inline_macros(tree, it[6] if it[0] == "for" else it[-1], e), env)
+
+
+def squeeze(pieces):
+    """pieces with whitespace runs of the literals collapsed and the ends stripped"""
+    out = []
+    for p in pieces:
+        if p[0] == "lit":
+            t = _re.sub(r"\s+", " ", p[1])
+            if out and out[-1][0] == "lit":
+                out[-1] = ("lit", _re.sub(r"\s+", " ", out[-1][1] + t))
+            else:
+                out.append(("lit", t))
+        else:
+            out.append(p)
+    if out and out[0][0] == "lit":
+        out[0] = ("lit", out[0][1].lstrip())
+    if out and out[-1][0] == "lit":
+        out[-1] = ("lit", out[-1][1].rstrip())
+    return [p for p in out if p != ("lit", "")]
+
+
+def printed(tree, items, env):
+    """what a run of text / output items prints, as str_pieces (sets and value macros followed, if-arms concatenated); a loop or
+    other control item appears as ("ctl", item, bindings in force, enclosing if-tests)"""
+    out = []
+    for it, env_, guards in scan(tree, items, env):
+        if it[0] == "text":
+            out.append(("lit", it[1]))
+        elif it[0] == "out":
+            out.extend(str_pieces(expr_at(tree, it, it[1], env_)))
+        else:
+            out.append(("ctl", it, dict(env_), guards))
+    return out
 
 
 # ----------------------------------------------------------------- config tests
